@@ -14,7 +14,9 @@ the real `IRGenerator`, plus direct oracles on the real objects.
   direct oracles  independent of Lean: (a) `faithful.judge_invariants` (closure, acyclic parents / aliases, ...) on the
                   real Api; (b) `judge_members`: every declared struct / union of the parsed AST has, in the real Api,
                   exactly its declared members in declaration order, each with the declared type expression (read off
-                  the real objects), plus only the implicit `other`; the declared parent; aliases their declared target.
+                  the real objects), plus only the implicit `other`; the declared parent; aliases their declared target;
+                  every route its declared types, deprecation and attribute dictionary (`_attrs_problem`: one entry
+                  per field of stone_cfg.Route, the declared value, else the default, else None).
 
 Specs with features outside the model's input (patches, a type passed by keyword, mixed literal / type positional
 arguments) are counted (`comp.skipped.*`) and skipped.
@@ -526,6 +528,43 @@ def _expr_problem(ref, t, ens):
     return None
 
 
+def _attrs_problem(item, route, schema):
+    """`route.attrs` of the real Api against the `attrs` section of the parsed route `item` and the schema
+    `stone_cfg.Route`: one entry per field of the schema (inherited ones included); the declared value where one is
+    given (a tag reference for a union, the encoded text for Bytes, the parsed time for a Timestamp), otherwise the
+    default of the field, otherwise None"""
+    import datetime
+    from stone.frontend import ast as A
+    from stone.ir import data_types as dt
+    if schema is None:
+        return 'the Api has no route schema'
+    fields = list(schema.all_fields)
+    names = [f.name for f in fields]
+    if sorted(route.attrs) != sorted(names):
+        return 'keys %r, the schema has %r' % (sorted(route.attrs), sorted(names))
+    given = {a.name: a.value for a in (item.attrs or [])}
+    for f in fields:
+        have = route.attrs[f.name]
+        g = given.get(f.name)
+        if g is None:
+            want = f.default if f.has_default else None
+            if not (have is want or (have == want and type(have) is type(want))):
+                return '%s: not set, the Api has %r instead of %r' % (f.name, have, want)
+            continue
+        t, _n, _a = dt.unwrap(f.data_type)
+        if isinstance(g, A.AstTagRef):
+            ok = isinstance(have, dt.TagRef) and have.tag_name == g.tag and have.union_data_type is t
+        elif isinstance(t, dt.Bytes):
+            ok = have == g.encode('utf-8')
+        elif isinstance(t, dt.Timestamp):
+            ok = have == datetime.datetime.strptime(g, t.format)
+        else:
+            ok = have == g and type(have) is type(g)
+        if not ok:
+            return '%s: declared %r, the Api has %r' % (f.name, g, have)
+    return None
+
+
 def judge_members(partial_asts, api):
     """-> [(what, signature, detail)]: declared members / parents / alias targets vs the real objects"""
     from stone.frontend import ast as A
@@ -595,6 +634,10 @@ def judge_members(partial_asts, api):
                 if want_dep != have_dep:
                     bad('route-deprecated', 'the deprecation of a route is not the declared one',
                         {'route': '%s.%s:%d' % (nsn, item.name, item.version), 'declared': want_dep, 'api': have_dep})
+                p = _attrs_problem(item, r, api.route_schema)
+                if p:
+                    bad('route-attrs', 'the attributes of a route are not the declared values, the defaults and null',
+                        {'route': '%s.%s:%d' % (nsn, item.name, item.version), 'problem': p})
                 continue
             if isinstance(item, A.AstAlias):
                 a = ns.alias_by_name.get(item.name)
